@@ -725,7 +725,8 @@ package builder
 //@ #else
 //@   modifies all storeDict
 //@ #endif
-//@   ensures [fresh C18] fresh(p) && fresh(p.errs) && fresh(p.Stats) && fresh(p.cur.globalStore)
+// (the Statistics option may install a caller-provided Stats object: sharing one between concurrent parses is the caller's doing)
+//@   ensures [fresh C18] fresh(p) && fresh(p.errs) && fresh(p.cur.globalStore)
 //@   ensures [init C01 C18] FreshP(p) && p.data == b && p.filename == filename
 //@   ensures [budget C16] p.maxExprCnt > 0
 //@   safety C11
